@@ -252,20 +252,19 @@ def parent_main(pid, tier):
     known_lines = []
     replays_run = 0
     # 2. replay tier: known findings, then regression replays
-    kf = known_findings(pid)
-    for e in kf:
-        if e.get("status") != "known":
-            continue
-        rp = os.path.join(VERIF, e["replay"])
-        r = run_replay(pid, rp, 1)
+    kf = [e for e in known_findings(pid) if e.get("status") == "known"]
+    known_paths = {os.path.realpath(os.path.join(VERIF, e["replay"])) for e in kf}
+    reg = [rp for rp in sorted(glob.glob(os.path.join(VERIF, "replays", pid, "*.json"))) if os.path.realpath(rp) not in known_paths]
+    # the replay tier runs every saved case in its own fresh process; the processes are independent, so up to 8 run at once
+    from concurrent.futures import ThreadPoolExecutor
+    with ThreadPoolExecutor(max_workers=int(os.environ.get("VERIF_REPLAY_JOBS", "8"))) as ex:
+        kres = list(ex.map(lambda e: run_replay(pid, os.path.join(VERIF, e["replay"]), 1), kf))
+        rres = list(ex.map(lambda rp: run_replay(pid, rp, 1), reg))
+    for e, r in zip(kf, kres):
         replays_run += 1
         if r[0][0]:
             known_lines.append("KNOWN-FINDING: property=%s %s" % (pid, e["what"]))
-    known_paths = {os.path.realpath(os.path.join(VERIF, e["replay"])) for e in kf if e.get("status") == "known"}
-    for rp in sorted(glob.glob(os.path.join(VERIF, "replays", pid, "*.json"))):
-        if os.path.realpath(rp) in known_paths:
-            continue
-        r = run_replay(pid, rp, 1)
+    for rp, r in zip(reg, rres):
         replays_run += 1
         if r[0][0]:
             r2 = run_replay(pid, rp, 2)
